@@ -8,7 +8,7 @@ use crate::common::{Fnv, Rng};
 use futures::lock::Mutex as AMutex;
 use futures::prelude::*;
 use futures::task::{waker, ArcWake};
-use omaha_client::app_set::VecAppSet;
+use omaha_client::app_set::{AppSet, VecAppSet};
 use omaha_client::common::{App, CheckOptions, UserCounting};
 use omaha_client::configuration::{Config, Updater};
 use omaha_client::cup_ecdsa::StandardCupv2Handler;
@@ -44,16 +44,19 @@ pub struct AppSpec {
     pub cohort: [Option<String>; 3],
     pub day: Option<u32>,
     pub fingerprint: Option<String>,
+    /// Embedder-defined extra attributes sent with the app (values may be empty).
+    pub extra: Vec<(String, String)>,
 }
 impl AppSpec {
     pub fn new(id: &str, version: [u32; 4]) -> Self {
-        AppSpec { id: id.into(), version, cohort: [None, None, None], day: None, fingerprint: None }
+        AppSpec { id: id.into(), version, cohort: [None, None, None], day: None, fingerprint: None, extra: vec![] }
     }
     pub fn to_app(&self) -> App {
         let mut a = App::builder().id(self.id.clone()).version(Version::from(self.version)).build();
         a.cohort = Cohort { id: self.cohort[0].clone(), hint: self.cohort[1].clone(), name: self.cohort[2].clone() };
         a.user_counting = UserCounting::ClientRegulatedByDate(self.day);
         a.fingerprint = self.fingerprint.clone();
+        a.extra_fields = self.extra.iter().cloned().collect();
         a
     }
     pub fn version_string(&self) -> String {
@@ -144,6 +147,8 @@ pub struct Driver {
     pub tick_ns: i128,
     pub panicked: Option<crate::common::PanicInfo>,
     pub setup: Setup,
+    /// the app set shared with the machine (the observer looks at it between polls, as an embedder would)
+    app_set: Option<Rc<AMutex<VecAppSet>>>,
     /// strict-wake: poll the stream only when the root waker fired since the last poll.
     pub strict: bool,
     pub out_of_steps: bool,
@@ -216,6 +221,7 @@ impl Driver {
             tick_ns: 1_000_000_000,
             panicked: None,
             setup: setup.clone(),
+            app_set: None,
             strict: true,
             out_of_steps: false,
         };
@@ -231,6 +237,7 @@ impl Driver {
         let cup = mk_cup();
         let apps: Vec<App> = setup.apps.iter().map(|a| a.to_app()).collect();
         let app_set = Rc::new(AMutex::new(VecAppSet::new(apps)));
+        self.app_set = Some(app_set.clone());
         let storage = Rc::new(AMutex::new(SimStorage { w: w.clone() }));
         let order = setup.builder_order;
         let placeholder = Config {
@@ -299,6 +306,19 @@ impl Driver {
         }
     }
 
+    /// Embedder action between polls: a channel change that comes with a different Omaha app id for the
+    /// system (first) app, applied in place through AppSet::iter_mut_apps().
+    pub fn rename_system_app(&mut self, channel: &str, to: &str) -> bool {
+        let Some(a) = &self.app_set else { return false };
+        let Some(mut g) = a.try_lock() else { return false };
+        if let Some(app) = g.iter_mut_apps().next() {
+            app.set_target_channel(Some(channel.to_string()), Some(to.to_string()));
+        }
+        drop(g);
+        lock(&self.w).push(Ev::EmbedderRename { to: to.to_string() });
+        true
+    }
+
     pub fn crashed(&self) -> bool {
         lock(&self.w).crashed
     }
@@ -334,6 +354,13 @@ impl Driver {
                         let seq = g.push(Ev::Taken(snap.clone()));
                         self.taken.push((seq, snap));
                         self.sig.str("T");
+                        // an observer that reads the shared app set before it polls again: if the machine
+                        // holds the lock while parked on this emission, such an observer deadlocks with it
+                        if let Some(a) = &self.app_set {
+                            if a.try_lock().is_none() {
+                                g.push(Ev::ObserverBlocked { on: "app_set" });
+                            }
+                        }
                     }
                 }
                 Ok(Poll::Ready(None)) => {
